@@ -73,6 +73,7 @@ type config struct {
 	ops      []op
 	depthQ   int
 	depthT   int
+	drainOp  int
 	maxJ     int // stepped iterators are opened and immediately stepped 0..maxJ times
 }
 
@@ -1148,13 +1149,13 @@ func explore(c *config, depth int, maxStates int64, deadline time.Time) stats {
 			var rw *rWorld
 			var mw *mWorld
 			for oi, o := range c.ops {
-				if !o.enq {
-					continue // observation-only reads are done in one sweep below
+				if !o.enq || obsLayer {
+					continue // observation-only reads (and everything at the final level) are done in one sweep below
 				}
 				if rw == nil {
 					rw, mw = replay(c, path) // a clean instance in the frontier state; consumed by the next applied op
 				}
-				if !enabled(mw, o, obsLayer) {
+				if !enabled(mw, o, false) {
 					continue
 				}
 				msg := apply(rw, mw, o)
@@ -1170,9 +1171,6 @@ func explore(c *config, depth int, maxStates int64, deadline time.Time) stats {
 				}
 				if (o.k == oIterDrain || o.k == oIterStep) && iterSawWrite(c, path) {
 					contAfterWrite.Add(1)
-				}
-				if obsLayer {
-					continue
 				}
 				var sb strings.Builder
 				cmw.key(&sb)
@@ -1197,23 +1195,6 @@ func explore(c *config, depth int, maxStates int64, deadline time.Time) stats {
 			if rw == nil {
 				rw, mw = replay(c, path)
 			}
-			for oi, o := range c.ops {
-				if o.enq || !o.read || !enabled(mw, o, true) {
-					continue
-				}
-				if o.k == oIterDrain || o.k == oIterClose || o.k == oIterStep {
-					continue
-				}
-				msg := apply(rw, mw, o)
-				transitions.Add(1)
-				obsReads.Add(1)
-				if msg != "" {
-					vmu.Lock()
-					viols = append(viols, violation{pi, oi, append(append([]uint16{}, path...), uint16(oi)), "[observation sweep] " + msg})
-					vmu.Unlock()
-					break
-				}
-			}
 			for i, ls := range c.layers {
 				if ls.kind == kCache {
 					u, s, ck := cache.VerifPartition(rw.S[i])
@@ -1232,6 +1213,42 @@ func explore(c *config, depth int, maxStates int64, deadline time.Time) stats {
 					if ck {
 						withCkpt.Add(1)
 					}
+				}
+			}
+			if obsLayer && mw.it != nil {
+				// final level: an iterator left open is drained first, from the exact frontier state
+				sawWrite := iterSawWrite(c, path)
+				msg := apply(rw, mw, c.ops[c.drainOp])
+				transitions.Add(1)
+				enqT.Add(1)
+				if msg != "" {
+					vmu.Lock()
+					viols = append(viols, violation{pi, c.drainOp, append(append([]uint16{}, path...), uint16(c.drainOp)), msg})
+					vmu.Unlock()
+					return
+				}
+				if sawWrite {
+					contAfterWrite.Add(1)
+				}
+			}
+			for oi, o := range c.ops {
+				if !o.read || (o.enq && !obsLayer) || !enabled(mw, o, true) {
+					continue // interior levels: enqueued reads were already run from the exact state above
+				}
+				if o.k == oIterDrain || o.k == oIterClose || o.k == oIterStep {
+					continue
+				}
+				if obsLayer && o.k == oScan && o.s != nil && o.e != nil {
+					continue // final level (the bulk of the states): one-sided domains only; interior states get every (start,end) pair
+				}
+				msg := apply(rw, mw, o)
+				transitions.Add(1)
+				obsReads.Add(1)
+				if msg != "" {
+					vmu.Lock()
+					viols = append(viols, violation{pi, oi, append(append([]uint16{}, path...), uint16(oi)), "[observation sweep] " + msg})
+					vmu.Unlock()
+					break
 				}
 			}
 		})
@@ -1403,6 +1420,7 @@ func buildOps(c *config) {
 	}
 	if anyIter {
 		c.ops = append(c.ops, op{k: oIterStep, enq: true})
+		c.drainOp = len(c.ops)
 		c.ops = append(c.ops, op{k: oIterDrain, enq: true, read: true})
 		c.ops = append(c.ops, op{k: oIterClose, enq: true})
 	}
@@ -1446,7 +1464,7 @@ func configs(thorough bool) []*config {
 	keysA := pick(bs("a", "a\xff", "b"), bs("", "a", "a\xff", "\xff"))
 	boundsA := pick(bs("a", "a\x00", "a\xff", "b"), bs("", "a", "a\x00", "a\xff", "b", "\xff"))
 	domsA := pickD([][2]int{{0, 0}, {2, 0}}, [][2]int{{0, 0}, {3, 0}, {0, 4}}) // quick: (nil,nil) (a\x00,nil); thorough: + (nil,a\xff)
-	out = append(out, &config{name: "mem<-cache<-cache", depthQ: 3, depthT: 5,
+	out = append(out, &config{name: "mem<-cache<-cache", depthQ: 3, depthT: 4,
 		layers: []layerSpec{
 			{kind: kBase, parent: -1, name: "base", wkeys: keysA, bounds: nil, edoms: [][2]int{{0, 0}}, writes: true},
 			{kind: kCache, parent: 0, name: "c1", wkeys: keysA, xkeys: bs("a\x00"), bounds: boundsA, edoms: domsA, writes: true, iter: true},
@@ -1457,7 +1475,7 @@ func configs(thorough bool) []*config {
 	})
 
 	// B: memdb <- prefix(0xff) <- cache      (prefix whose end bound is unbounded)
-	out = append(out, &config{name: "mem<-prefix(ff)<-cache", depthQ: 3, depthT: 5,
+	out = append(out, &config{name: "mem<-prefix(ff)<-cache", depthQ: 3, depthT: 4,
 		layers: []layerSpec{
 			{kind: kBase, parent: -1, name: "base", wkeys: bs("\xfe\xff", "\xff", "\xff\xff"), bounds: bs("\xff"), edoms: [][2]int{{0, 0}}, writes: true},
 			{kind: kPrefix, parent: 0, prefix: []byte("\xff"), name: "p", wkeys: bs("", "\xff"), bounds: bs("", "\x00", "\xff"), edoms: [][2]int{{0, 0}, {0, 3}}, writes: true, iter: true},
@@ -1482,7 +1500,7 @@ func configs(thorough bool) []*config {
 
 	// D: cachemulti over two dbadapter stores, and a nested MultiCacheWrap
 	kD := bs("a", "b")
-	out = append(out, &config{name: "cachemulti(2 stores)<-MultiCacheWrap", cms: true, depthQ: 3, depthT: 5,
+	out = append(out, &config{name: "cachemulti(2 stores)<-MultiCacheWrap", cms: true, depthQ: 3, depthT: 4,
 		layers: []layerSpec{
 			{kind: kBase, parent: -1, name: "base0", wkeys: kD, bounds: nil, edoms: [][2]int{{0, 0}}, writes: false},
 			{kind: kBase, parent: -1, name: "base1", wkeys: kD, bounds: nil, edoms: [][2]int{{0, 0}}, writes: false},
